@@ -19,6 +19,8 @@ mod c03_move;
 mod c03_arith;
 #[cfg(kani)]
 mod c03_special;
+#[cfg(kani)]
+mod c16_split;
 
 #[cfg(kani)]
 mod playback_slot;
